@@ -79,7 +79,9 @@ func (rt *runtime) enterScope(scop *scope) {
 		rt.halting, rt.haltValue = false, nil
 	}
 	if rt.scope != nil {
-		if rt.stackLimit != 0 && rt.scope.depth+1 >= rt.stackLimit {
+		// Active direct evals enter no scope but count against the limit (see
+		// builtinGlobalEval): a new frame is charged for them as well.
+		if rt.stackLimit != 0 && rt.scope.depth+1+rt.evalDepth >= rt.stackLimit {
 			panic(rt.panicRangeError("Maximum call stack size exceeded"))
 		}
 
